@@ -7,6 +7,12 @@ PROPS = [json.loads(l) for l in open(os.path.join(HOME, "properties.jsonl"))]
 
 META = {
     # id: (technique, level text, level_note, design_ref)
+    "C01": (
+        "model-based history generation (reads x mutators) with a cold-reconstruction oracle: enumerated depth-1 matrix warm-set x mutator x start mesh + hypothesis histories",
+        "Generated search over read/mutate histories of a live Trimesh: a complete depth-1 matrix (warm set in {nothing, each of 50 derived values alone, everything} x 43 mutator variants incl. every matrix class, masks, in-place edits, copies x 4 start meshes; all-warm/cold columns complete in the quick tier, a seeded quarter of single-warm cells) plus a squared family of core mutators and Hypothesis histories of <=10 steps; after the history every registered value (normals, areas, mass properties, bounds, edges, adjacency, watertightness, facets, hull, ray / nearest / contains answers on fixed queries) must equal the value of a mesh freshly built from copies of the current arrays and overrides. Exploration only.",
+        "The cold mesh runs the same trimesh code, so this decides history-independence (the property), not correctness of each value (C03/C05/C12 do that). Matrices stay away from the 1e-8/1e-6 shortcuts; user-assigned vertex normals excluded; vertex normals after merge_vertices compared at the documented digits_norm precision.",
+        "DESIGN.md section 4 C01",
+    ),
     "C02": (
         "hypothesis-generated programs of numpy operations over a tracked array and its views + enumerated route x target table, oracle = hash of a fresh array with the same bytes",
         "Generated search: programs (<=14 steps) of hash reads, view creation, 46 mutating routes and read-only operations over a TrackedArray root and every view derived from it, with hash(x)==hash_fast(x.tobytes()) checked on drawn subsets after each step and on everything at the end; a complete enumeration of route x write target (root/view/view-of-view, 20 view chains) x which members were hashed before x the 6 dtype/shape kinds trimesh stores; the same routes applied to mesh.vertices/faces, path.vertices, colour arrays with the container hash compared to a freshly built object. Does not prove absence for routes not in the table.",
